@@ -7,6 +7,11 @@ type extraPkg struct {
 	To   string // directory under /repo (overlay-only)
 }
 
+type replaceModule struct {
+	Path string // module path
+	Dir  string // directory below GOMODCACHE
+}
+
 type component struct {
 	Name string `json:"component"`
 	Mode string `json:"mode"` // real-woven | real-unwoven | stub | not-run
@@ -21,6 +26,7 @@ type propSpec struct {
 	HarnessExtra []string // further harness directories (shared helpers)
 	Weave        []weave.PkgConfig
 	ExtraPkgs    []extraPkg
+	ReplaceModules []replaceModule // dependencies that are woven: copied out of the module cache and replaced in the scratch go.mod
 	QuickSecs    int // wall-clock budget of the simulation phase
 	ThoroughSecs int
 	QuickRuns    int // upper bound on runs (0 = budget only)
@@ -49,6 +55,29 @@ var glyphServerWeave = []weave.PkgConfig{
 }
 
 var specs = map[string]*propSpec{
+	"C16": {
+		ID: "C16", Title: "WebSocket rooms stay consistent under concurrency",
+		TestPkg: "pkg/websocket", HarnessDir: "C16",
+		Weave: []weave.PkgConfig{
+			{Path: "./pkg/websocket", Touch: true, Replace: map[string]string{"crypto/rand": weave.RTPath + "/simrand"}},
+			// gorilla serialises writers with a channel used as a mutex; woven so that a task waiting
+			// for it parks in the scheduler instead of blocking the whole simulation
+			{Path: "github.com/gorilla/websocket", Replace: map[string]string{"crypto/rand": weave.RTPath + "/simrand"}},
+		},
+		ExtraPkgs:      []extraPkg{{From: "sim/simrand", To: "pkg/zzsimrt/simrand"}},
+		ReplaceModules: []replaceModule{{Path: "github.com/gorilla/websocket", Dir: "github.com/gorilla/websocket@v1.5.3"}},
+		QuickSecs: 45, ThoroughSecs: 600, Chunk: 100,
+		Rule: "each run draws hub/room limits (1-4 / 1-3), queue size 1-4 and strategy, heartbeat and reconnection settings, then 2-6 clients (real gorilla client framing over a simulated connection: connect, join/leave/broadcast/ping/custom-event frames, garbage, orderly close or abrupt vanish, small receive buffers = slow consumers) and 0-3 actor tasks calling the public API (Connection.JoinRoom/LeaveRoom/Send/Close, Hub.Broadcast/BroadcastToRoom, RestoreConnectionState), with custom handlers that run on the hub loop; a run is non-trivial if at least two tasks were runnable at once and a preemption happened, or a fault (client close/vanish, server close, short read, clock jump) fired; distinct = distinct fingerprints (schedule hash combined with workload and fault tapes) among those",
+		Components: []component{
+			{"pkg/websocket Server.HandleWebSocket, Hub.Run, Connection ReadPump/WritePump/Send/JoinRoom/LeaveRoom/Close, RoomManager, default and custom handlers, metrics", "real-woven", "L0 + race probes"},
+			{"gorilla/websocket upgrade, framing, control frames (client and server side)", "real-woven", "L0 (woven from the module cache through the overlay): its channel-mutex and timers park in the scheduler"},
+			{"TCP connection", "stub", "in-memory SimConn pair: reads/writes/deadlines park in the scheduler, seeded short reads, bounded receive buffer"},
+			{"http.ResponseWriter/Hijacker", "stub", "harness writer handing the simulated connection to the upgrader"},
+			{"crypto/rand (connection ids)", "stub", "seeded stream"},
+			{"clock, tickers, deadlines", "stub", "testing/synctest fake clock"},
+		},
+		FaultKinds: []string{"client-close", "client-vanish", "server-close", "net-short-read", "clock-jump"},
+	},
 	"C14": {
 		ID: "C14", Title: "database transactions are all-or-nothing",
 		TestPkg: "pkg/database", HarnessDir: "C14",
